@@ -39,7 +39,7 @@ PROPS = {
         'modules': ISOMODS + ['contracts.mciipm_block', 'contracts.mciipm_vbs'],
         'canaries': [
             (ISO, "        if pds_field_length < 0:  # would move the pointer backwards and never finish\n            raise Iso8583DataError(f'Invalid length for PDS{pds_field_tag}')\n", "", "negative PDS sub-length accepted (hang)", "_pds_to_dict/any"),
-            (ISO, "except (struct.error, binascii.Error) as ex:", "except struct.error as ex:", "binascii.Error escapes loads", "loads-framing[fixed-only"),
+            (ISO, "except (struct.error, binascii.Error) as ex:", "except struct.error as ex:", "binascii.Error escapes loads", "loads-hex-bitmap"),
             (ISO, "        except struct.error as ex:\n            raise Iso8583DataError(f'Unable to process DE{bit} ICC data',", "        except KeyError as ex:\n            raise Iso8583DataError(f'Unable to process DE{bit} ICC data',", "struct.error escapes from ICC data", "_iso8583_to_field[LLLVAR,ICC"),
         ],
         'assumptions': ["exception sets of the library models are what makes this meaningful: int -> ValueError, decode -> UnicodeDecodeError, struct.unpack -> struct.error, unhexlify -> binascii.Error, strptime -> ValueError, Decimal -> InvalidOperation, s[i] -> IndexError, d[k] -> KeyError; re.match is assumed to terminate; MemoryError / RecursionError / wall-clock `promptly` are out of reach",
